@@ -23,7 +23,10 @@ RULE = ('random rasters up to 6x6 (zone alphabets as C02: negative / fractional 
         'contain at least one existing zone; crosstab 2-D (count / percentage, zone_ids / cat_ids selections) and 3-D count; '
         'schedulers synchronous and threads; plus a "computed together" stream: 2-3 lazy stats / crosstab tables on the same '
         'raster under different selections or on different rasters of the same shape, materialised by ONE dask.compute and each '
-        'compared with its NumPy table. Hard cases: a zone split over several blocks, a zone absent from some blocks, a '
+        'compared with its NumPy table; appended: lazy tables each computed (twice) only AFTER all other calls, in reverse order; '
+        'every argument in C / F / transposed / strided / reversed / non-writeable layout; zone_ids as tuple / numpy arrays; '
+        '1-wide chunks and single chunks; 1x1 / 1x5 / 5x1 / 2x2 rasters that are all-NaN, all-equal or have one valid cell; '
+        'float16 values. Hard cases: a zone split over several blocks, a zone absent from some blocks, a '
         'selected zone with no valid cell at all. The thorough tier also enumerates all 16 chunkings of 3x3 rasters for '
         'crosstab. Non-trivial: >= 2 blocks and a zone with valid cells in >= 2 blocks or absent from a block.')
 TRUSTED = [
@@ -158,25 +161,31 @@ def eval_case(case):
     import dask.array as da
     from xrspatial.zonal import stats, crosstab
     res = {}
-    z = np_array(case['zones'], case['zdtype'])
+    z = c02.layout_array(case['zones'], case['zdtype'], case.get('zlayout', 'C'))
+    zone_ids = c02.ids_arg(case['zone_ids'], case.get('ids_as'))
     for backend in ('numpy', 'dask'):
         try:
             if case['fn'] == 'stats':
-                v = np_array(case['values'], case['vdtype'])
+                v = c02.layout_array(case['values'], case['vdtype'], case.get('vlayout', 'C'))
                 if backend == 'dask':
                     za = xr.DataArray(da.from_array(z, chunks=chunk_tuple(case['zchunks'])), dims=['y', 'x'])
                     va = xr.DataArray(da.from_array(v, chunks=chunk_tuple(case['vchunks'])), dims=['y', 'x'])
                 else:
                     za, va = xr.DataArray(z, dims=['y', 'x']), xr.DataArray(v, dims=['y', 'x'])
                 with dask.config.set(scheduler=case['scheduler']):
-                    df = stats(zones=za, values=va, zone_ids=case['zone_ids'], stats_funcs=list(case['stats']),
+                    df = stats(zones=za, values=va, zone_ids=zone_ids, stats_funcs=list(case['stats']),
                                nodata_values=case['nodata'])
                     if backend == 'dask':
-                        df = df.compute()
+                        lazy = df
+                        df = lazy.compute()
+                        if case.get('repeat'):            # the same lazy result materialised twice
+                            again = lazy.compute()
+                            if not df.equals(again):
+                                raise AssertionError('the same lazy table computed twice differs')
                 cols = list(df.columns)
                 res[backend] = dict(cols=cols, rows=[dict((c, float(df[c].iloc[i])) for c in cols) for i in range(len(df))])
             else:
-                sub = dict(case, backend=backend, chunks=[tuple(case['zchunks'][0]), tuple(case['zchunks'][1])])
+                sub = dict(case, backend=backend, chunks=[tuple(case['zchunks'][0]), tuple(case['zchunks'][1])], zids_as=case.get('ids_as'))
                 if backend == 'dask':
                     sub['vchunks'] = [tuple(case['vchunks'][0]), tuple(case['vchunks'][1])]
                 with dask.config.set(scheduler=case['scheduler']):
@@ -189,8 +198,8 @@ def eval_case(case):
 def stats_lazy(case, backend):
     import dask.array as da
     from xrspatial.zonal import stats
-    z = np_array(case['zones'], case['zdtype'])
-    v = np_array(case['values'], case['vdtype'])
+    z = c02.layout_array(case['zones'], case['zdtype'], case.get('zlayout', 'C'))
+    v = c02.layout_array(case['values'], case['vdtype'], case.get('vlayout', 'C'))
     if backend == 'dask':
         za = xr.DataArray(da.from_array(z, chunks=chunk_tuple(case['zchunks'])), dims=['y', 'x'])
         va = xr.DataArray(da.from_array(v, chunks=chunk_tuple(case['vchunks'])), dims=['y', 'x'])
@@ -232,7 +241,18 @@ def eval_together(group):
     idx = [i for i, l in enumerate(lazies) if l is not None]
     try:
         with dask.config.set(scheduler=group['scheduler']):
-            dfs = dask.compute(*[lazies[i] for i in idx])
+            if group.get('mode') == 'deferred':
+                # every lazy table is materialised on its own, in REVERSE order of creation, only after all the other calls
+                # (the NumPy calls above and the other computes) have run; the first one is computed twice
+                got = {}
+                for i in reversed(idx):
+                    got[i] = lazies[i].compute()
+                again = lazies[idx[0]].compute() if idx else None
+                if idx and not got[idx[0]].equals(again):
+                    raise AssertionError('the same lazy table computed twice differs')
+                dfs = [got[i] for i in idx]
+            else:
+                dfs = dask.compute(*[lazies[i] for i in idx])
         for i, df in zip(idx, dfs):
             out[i]['dask'] = canon_stats(df) if group['variants'][i]['fn'] == 'stats' else c04.canon_df(df)
     except Exception as e:      # noqa
@@ -330,7 +350,7 @@ def oracle(ctx, case, res):
                 d['cols'], [r['zone'] for r in d['rows']], n['cols'], [r['zone'] for r in n['rows']]),
                 dict(case, numpy=n, dask=d), key=key_for(case))
             return False
-        tol = 1e-4 if case['vdtype'] == 'float32' else 1e-9
+        tol = c02.TOL.get(case['vdtype'], 1e-9)
         for rn, rd in zip(n['rows'], d['rows']):
             for s in case['stats']:
                 a, b = rn[s], rd[s]
@@ -476,6 +496,50 @@ def gen_all(ctx):
                 c['cat_ids'] = None
         c['zchunks'], c['vchunks'], c['chunkmode'] = c02.chunk_pairs_2d(rng, rows, cols)
         cases.append(c)
+    # appended theme cases: layouts of each argument, id containers, 1-wide / single chunks, degenerate rasters, repeated compute
+    for i in range(24 if q else 400):
+        kind = ['stats', 'xtab2'][i % 2]
+        c = gen_case(rng, i, kind)
+        th = ['layout', 'containers', 'one-wide-chunks', 'degenerate', 'repeat', 'float16'][(i // 2) % 6]
+        c['theme'] = th
+        rows, cols = len(c['zones']), len(c['zones'][0])
+        present = c02.finite_zone_ids(c['zones'])
+        if th == 'layout':
+            c['zlayout'], c['vlayout'] = rng.choice(c02.LAYOUTS6), rng.choice(c02.LAYOUTS6[1:])
+        elif th == 'containers':
+            ids = [int(z) for z in present if float(z) == int(z) and abs(z) < 100]
+            if ids:
+                c['zone_ids'] = rng.sample(ids, rng.randint(1, len(ids)))
+                c['ids_as'] = rng.choice(['tuple', 'ndarray:int64', 'ndarray:float32', 'ndarray:int16'])
+        elif th == 'one-wide-chunks':
+            if rng.random() < 0.5:
+                c['zchunks'] = [[1] * rows, [cols]] if rows <= 6 else [[rows], [1] * min(cols, 6) + ([cols - 6] if cols > 6 else [])]
+            else:
+                c['zchunks'] = [[rows], [1] * cols] if cols <= 6 else [[1] * rows, [cols]]
+            c['vchunks'] = c['zchunks'] if rng.random() < 0.5 else [[rows], [cols]]
+        elif th == 'degenerate':
+            shape = rng.choice([(1, 1), (1, 5), (5, 1), (2, 2)])
+            z0 = present[0]
+            c['zones'] = [[z0] * shape[1] for _ in range(shape[0])]
+            c['zone_ids'] = None
+            mode = rng.choice(['all-nan', 'single-valid', 'all-equal'])
+            vv = [[c02.NAN if mode != 'all-equal' else 2.0] * shape[1] for _ in range(shape[0])]
+            if mode == 'single-valid':
+                vv[rng.randrange(shape[0])][rng.randrange(shape[1])] = 3.0
+            c['values'], c['vdtype'] = vv, 'float64'
+            c['nodata'] = None
+            if kind == 'xtab2':
+                c['cat_ids'] = None
+            c['zchunks'] = [composition(rng, shape[0], 2), composition(rng, shape[1], 3)]
+            c['vchunks'] = c['zchunks'] if rng.random() < 0.5 else [[shape[0]], [shape[1]]]
+            c['degenerate'] = '%dx%d/%s' % (shape[0], shape[1], mode)
+        elif th == 'repeat':
+            c['repeat'] = True
+        elif th == 'float16' and kind == 'stats':
+            c['vdtype'] = 'float16'
+            c['values'] = c02.gen_values(rng, rows, cols, 'float16')
+            c['nodata'] = None
+        cases.append(c)
     return cases
 
 
@@ -483,13 +547,14 @@ def run_together(ctx, groups, pool):
     results = pool.map(eval_together, groups, chunksize=1)
     for group, res in zip(groups, results):
         ctx.case(group, nontrivial=True)
-        ctx.count('together/%s/%d-lazy-results' % (group['variants'][0]['fn'], len(group['variants'])))
+        ctx.count('%s/%s/%d-lazy-results' % ('deferred-compute' if group.get('mode') == 'deferred' else 'together', group['variants'][0]['fn'], len(group['variants'])))
         for i, (case, r) in enumerate(zip(group['variants'], res)):
             n0 = len(ctx.violations)
             oracle(ctx, case, r)
             for v in ctx.violations[n0:]:
-                v['what'] = '[variant %d of %d lazy Dask results materialised by ONE dask.compute] %s' % (
-                    i + 1, len(group['variants']), v['what'])
+                v['what'] = '[variant %d of %d lazy Dask results %s] %s' % (
+                    i + 1, len(group['variants']), 'each computed only after all other calls' if group.get('mode') == 'deferred'
+                    else 'materialised by ONE dask.compute', v['what'])
                 v['replay'] = dict(group, failing_variant=i)
 
 
@@ -498,6 +563,10 @@ def run(ctx, cases=None, groups=None):
     cases = cases if cases is not None else gen_all(ctx)
     if groups is None:
         groups = [gen_together(ctx.rng, i) for i in range((45 if ctx.quick() else 500) if fresh else 0)]
+        for i in range((9 if ctx.quick() else 200) if fresh else 0):       # appended: deferred compute
+            g = gen_together(ctx.rng, i)
+            g['mode'] = 'deferred'
+            groups.append(g)
     workers = int(os.environ.get('VERIF_POOL', '6'))
     with mp.get_context('fork').Pool(min(6, workers)) as pool:
         results = pool.map(eval_case, cases, chunksize=2)
@@ -506,6 +575,8 @@ def run(ctx, cases=None, groups=None):
     pending = []
     for case, res in zip(cases, results):
         ctx.case(case, nontrivial=nontrivial(case))
+        if case.get('theme'):
+            ctx.count('theme/%s/%s%s' % (case['fn'], case['theme'], '/' + case['degenerate'] if case.get('degenerate') else ''))
         ctx.count('%s/blocks=%d/%s/%s' % (case['fn'], nblocks(case),
                                           'same-chunks' if chunk_tuple(case['zchunks']) == chunk_tuple(case['vchunks']) else 'values-chunked-differently',
                                           case['scheduler']))
